@@ -48,18 +48,21 @@ def oracle(recs, db, cfg, res, case):
         if t in explicit_t:
             e = explicit_t[t]
             if len(got) != 1 or got[0]["source"] == "gffutils_derived" or (got[0]["start"], got[0]["end"]) != (e["start"], e["end"]):
-                common.fail(res, case, "explicit_transcript_not_single", "an explicit transcript line is not the single feature under its id",
+                common.fail(res, case, "explicit_transcript_not_single",
+                            "an explicit transcript line is not the single feature under its id",
                             id=t, observed=[(g["featuretype"], g["start"], g["end"], g["source"]) for g in got],
                             expected=("transcript", e["start"], e["end"], "src"))
             continue
         if disT:
             if got:
-                common.fail(res, case, "disable_infer_transcripts_ignored", "disable_infer_transcripts did not suppress a derived transcript", id=t)
+                common.fail(res, case, "disable_infer_transcripts_ignored",
+                            "disable_infer_transcripts did not suppress a derived transcript", id=t)
             continue
         want = (min(e["start"] for e in exs), max(e["end"] for e in exs), exs[0]["seqid"], exs[0]["strand"])
         if len(got) != 1 or got[0]["featuretype"] != "transcript" or \
                 (got[0]["start"], got[0]["end"], got[0]["seqid"], got[0]["strand"]) != want:
-            common.fail(res, case, "derived_transcript_extent", "derived transcript does not span min start .. max end of its exons on their "
+            common.fail(res, case, "derived_transcript_extent",
+                        "derived transcript does not span min start .. max end of its exons on their "
                         "seqid/strand", id=t, expected=want,
                         observed=[(g["featuretype"], g["start"], g["end"], g["seqid"], g["strand"]) for g in got])
         else:
@@ -67,30 +70,35 @@ def oracle(recs, db, cfg, res, case):
                 f = db[t]
                 assert f.featuretype == "transcript"
             except Exception as ex:
-                common.fail(res, case, "derived_transcript_not_retrievable", "derived transcript not retrievable by its id: %r" % ex, id=t)
+                common.fail(res, case, "derived_transcript_not_retrievable",
+                            "derived transcript not retrievable by its id: %r" % ex, id=t)
             ga = got[0]["attributes"]
             if ga.get(tkey) != [t] or ga.get(gkey) != [gene_of[t]]:
-                common.fail(res, case, "derived_transcript_ids", "the derived transcript stored under %r does not carry that transcript's ids" % t,
+                common.fail(res, case, "derived_transcript_ids",
+                            "the derived transcript stored under %r does not carry that transcript's ids" % t,
                             id=t, observed=ga, expected={tkey: [t], gkey: [gene_of[t]]})
     for g, exs in gx.items():
         got = byid.get(g, [])
         if g in explicit_g:
             e = explicit_g[g]
             if len(got) != 1 or got[0]["source"] == "gffutils_derived" or (got[0]["start"], got[0]["end"]) != (e["start"], e["end"]):
-                common.fail(res, case, "explicit_gene_not_single", "an explicit gene line is not the single feature under its id",
+                common.fail(res, case, "explicit_gene_not_single",
+                            "an explicit gene line is not the single feature under its id",
                             id=g, observed=[(x["featuretype"], x["start"], x["end"], x["source"]) for x in got],
                             expected=("gene", e["start"], e["end"], "src"))
             continue
         if disG:
             if got:
-                common.fail(res, case, "disable_infer_genes_ignored", "disable_infer_genes did not suppress a derived gene", id=g)
+                common.fail(res, case, "disable_infer_genes_ignored",
+                            "disable_infer_genes did not suppress a derived gene", id=g)
             continue
         if not any(e["transcript"] is not None for e in exs):
             continue
         want = (min(e["start"] for e in exs), max(e["end"] for e in exs), exs[0]["seqid"], exs[0]["strand"])
         if len(got) != 1 or got[0]["featuretype"] != "gene" or \
                 (got[0]["start"], got[0]["end"], got[0]["seqid"], got[0]["strand"]) != want:
-            common.fail(res, case, "derived_gene_extent", "derived gene does not span all exons of the gene", id=g, expected=want,
+            common.fail(res, case, "derived_gene_extent",
+                        "derived gene does not span all exons of the gene", id=g, expected=want,
                         observed=[(x["featuretype"], x["start"], x["end"], x["seqid"], x["strand"]) for x in got])
     # nothing derived beyond these
     for x in rows:
@@ -99,7 +107,8 @@ def oracle(recs, db, cfg, res, case):
             ok = (x["featuretype"] == "transcript" and k in tx and not disT) or \
                  (x["featuretype"] == "gene" and k in gx and not disG)
             if not ok:
-                common.fail(res, case, "unwarranted_derived_feature", "a derived feature exists that no exon line warrants (or a flag forbids)",
+                common.fail(res, case, "unwarranted_derived_feature",
+                            "a derived feature exists that no exon line warrants (or a flag forbids)",
                             id=k, featuretype=x["featuretype"])
     # relations: every other line is level-1 child of its transcript, level-2 child of its gene; transcript -> gene
     want = set()
@@ -139,7 +148,8 @@ def judge(ctx, case):
         return res
     db, rep, cfg = build(ctx, case)
     if db is None:
-        common.fail(res, case, "create_db_raised", "create_db raised on a GTF file: " + rep, error=rep, observed=rep, expected="ok")
+        common.fail(res, case, "create_db_raised",
+                    "create_db raised on a GTF file: " + rep, error=rep, observed=rep, expected="ok")
         return res
     oracle(case["records"], db, cfg, res, case)
     return res
@@ -190,7 +200,8 @@ def run(ctx):
         cmds.append(dbside.cmd_create(lines, cfg)); exp.append(rep); tags.append(("create_db (GTF)", repr((lines, cfg.describe()))))
         case = mk_case(lines, recs, cfg)
         if db is None:
-            common.fail(res, case, "create_db_raised", "create_db raised on a GTF file: " + rep, error=rep, observed=rep, expected="ok")
+            common.fail(res, case, "create_db_raised",
+                        "create_db raised on a GTF file: " + rep, error=rep, observed=rep, expected="ok")
             continue
         if any(x["ftype"] == sub and x["transcript"] for x in recs):
             res.nontriv((tuple(lines), disG, disT))
